@@ -287,6 +287,11 @@ theorem gen_next_segment_id :
     BlugeGen.C03.segSeedList = "ItemKindSegment" ∧ BlugeGen.C03.segSeedExpr = "LISTED[0]" ∧ BlugeGen.C03.segSeedInc = true ∧
     BlugeGen.C03.segIDsOther = [] ∧ BlugeGen.C03.listDescending = true := by decide
 
+/-- `equiv` needs the merged segment in the root (`new ∈ s.rootSegs`): when the introducer SKIPPED the in-memory merge,
+`mergeSegmentBases` closes the post-merge snapshot and returns nil, so `persistSnapshotMaybeMerge` writes no equivalent
+snapshot and the grabbed root is persisted directly, with its in-memory segments -/
+theorem gen_skipped_merge_returns_no_snapshot : BlugeGen.C03.skippedMergeReturnsNil = true := by decide
+
 /-! ## necessity of the hypotheses and the boundary of the property: concrete traces -/
 
 /-- batches 1, 2 persisted and acknowledged; batch 3's snapshot (epoch 5) in flight -/
